@@ -13,7 +13,7 @@ from __future__ import annotations
 import ast
 from typing import Dict, List, Optional, Set, Tuple
 
-from ..astq import assignments_to, call_name, names_in, self_attrs_in, stmt_of
+from ..astq import assignments_to, call_name, in_subtree, names_in, occ, self_attrs_in, stmt_of
 from ..logic import guard_clauses, guards, entails
 from ..model import (AnalysisError, Func, first_line, is_self_attr, norm, parent,
                      walk_local, ancestors)
@@ -708,6 +708,21 @@ def timestamps_stay_sorted(ctx):
                     yield Ob("C06.R6", ["C06", "C01", "C02", "C03"], f"{f.qual} | mutate {attr} | {norm(n, 100)}", False,
                              "in-place mutation of the sorted container that is neither an append nor an "
                              "order-preserving rebuild", ctx.prog.loc(n))
+    # the order test compares with the *largest* stored timestamp: latest_time reads the last entry of the sorted container
+    lt = ctx.prog.lookup_method("Index", "latest_time")
+    if lt is None:
+        raise AnalysisError("C06.R6", "Index.latest_time not found")
+    S_ = next(iter(fl.sorted))
+    reads = [n for n in walk_local(lt.node) if isinstance(n, ast.Subscript) and is_self_attr(n.value, S_)]
+    maxes = [n for n in walk_local(lt.node) if isinstance(n, ast.Call) and call_name(n) == "max" and n.args
+             and is_self_attr(n.args[0], S_)]
+    bad_lt = [n for n in reads if norm(n.slice) not in ("-1", f"len(self.{S_}) - 1")]
+    ok = bool(reads or maxes) and not bad_lt
+    yield Ob("C06.R6", ["C06", "C01", "C02", "C03"], f"{lt.qual} | reads the largest timestamp", ok,
+             f"last entry of the sorted container self.{S_}" if ok else
+             (f"`{norm(bad_lt[0])}` is not the last entry of the sorted timestamps: an insert older than the newest point passes "
+              f"the order test and is appended, leaving a valid index with unsorted timestamps" if bad_lt else
+              f"does not read self.{S_}"), lt.loc())
     # the appending operation is reachable from outside only under the order test
     if append_funcs:
         appenders = set()
@@ -794,6 +809,16 @@ def valid_flag_set_last(ctx):
                     return True
             return False
 
+        # the rebuild starts from an empty index on every call (a rebuild that failed half-way leaves entries behind
+        # whatever the validity flag says)
+        resets = [c for c in walk_local(m.node) if isinstance(c, ast.Call) and isinstance(c.func, ast.Attribute)
+                  and is_self_attr(c.func) and any(r_.name == c.func.attr for r_ in rl)]
+        cond = [c for c in resets if guard_clauses(guards(c))]
+        uncond = [c for c in resets if not guard_clauses(guards(c))]
+        yield Ob("C06.R7", ["C06", "C13", "C01", "C07"], f"{m.qual} | rebuild starts from an empty index", bool(uncond),
+                 "the containers are reset unconditionally" if uncond else
+                 f"`{norm(cond[0], 40) if cond else 'reset'}` is conditional ({sorted(map(sorted, guard_clauses(guards(cond[0]))))[:2] if cond else 'missing'}): "
+                 f"after a rebuild that raised half-way the next rebuild indexes on top of the leftovers", m.loc())
         setters = [x for x in g.stmt_nodes() if sets_valid(x)]
         if not setters:
             yield Ob("C06.R7", ["C06", "C13", "C01", "C11", "C07", "C02", "C03"], f"{m.qual} | rebuild sets flag", False,
@@ -1102,3 +1127,177 @@ def renumbering_is_total(ctx):
                 bad.append(f"iterates `{norm(src, 40)}`")
         yield Ob("C06.R10", ["C06", "C02", "C10", "C01", "C07", "C03", "C08"], f"{h.qual} | total renumbering", not bad,
                  "; ".join(bad[:2]) if bad else f"{len(stores)} unconditional element-wise map(s)", h.loc())
+
+
+def _tuple_position_component(ctx, fl) -> Dict[str, int]:
+    """Inverted maps whose entries are tuples -> index of the storage-position component (read off the
+    insertion code: the component that is the method's position parameter)."""
+    out: Dict[str, int] = {}
+    for m in ctx.prog.methods_of("Index"):
+        params = set(m.params()[1:])
+        for n in walk_local(m.node):
+            tup = None
+            tgt = None
+            if isinstance(n, ast.Call) and isinstance(n.func, ast.Attribute) and n.func.attr == "append" and n.args \
+                    and isinstance(n.args[0], ast.Tuple):
+                tup, tgt = n.args[0], n.func.value
+            elif isinstance(n, ast.Assign) and isinstance(n.value, ast.List) and len(n.value.elts) == 1 \
+                    and isinstance(n.value.elts[0], ast.Tuple):
+                tup, tgt = n.value.elts[0], n.targets[0]
+            if tup is None:
+                continue
+            base = tgt
+            while not is_self_attr(base):
+                if isinstance(base, ast.Subscript):
+                    base = base.value
+                elif isinstance(base, ast.Call) and isinstance(base.func, ast.Attribute) \
+                        and base.func.attr in ("setdefault", "get", "__getitem__"):
+                    base = base.func.value
+                else:
+                    break
+            if not (is_self_attr(base) and base.attr in fl.maps):
+                continue
+            for k, e in enumerate(tup.elts):
+                if isinstance(e, ast.Name) and e.id in params:
+                    out.setdefault(base.attr, k)
+    return out
+
+
+@rule("C06.R13", ["C06", "C02", "C01", "C07", "C10"], min_instances=3, design="3.6")
+def removal_filters_exactly(ctx):
+    """Each pruning helper of Index.remove keeps exactly the entries whose storage position is not in the removed set: the filter tests the position component with `not in`, keeps the entry unchanged, every non-empty filtered list is stored back, and the pruning loop has no early exit."""
+    from ..logic import consistent_with, formula, guard_clauses, guards
+    fl = fields_of(ctx)
+    rm = ctx.prog.func("Index.remove", "C06.R13")
+    helpers = [h for h in self_calls(ctx, rm) if any(a in direct_writes(h) for a in fl.position_bearing)]
+    if len(helpers) < 4:
+        raise AnalysisError("C06.R13", f"expected 4 pruning helpers of Index.remove, found {[h.qual for h in helpers]}")
+    comp_of = _tuple_position_component(ctx, fl)
+    for h in helpers:
+        r_items = h.params()[1]
+        written = [a for a in fl.position_bearing if a in direct_writes(h)]
+        tuple_comp = next((comp_of[a] for a in written if a in comp_of), None)
+        bad = []
+        n_filters = 0
+
+        def pos_text(var: str) -> str:
+            return var if tuple_comp is None else f"{var}[{tuple_comp}]"
+        # (a) comprehension filters
+        for n in walk_local(h.node):
+            if isinstance(n, (ast.ListComp, ast.SetComp, ast.GeneratorExp)) and len(n.generators) == 1:
+                g = n.generators[0]
+                if not any(isinstance(x, ast.Name) and x.id == r_items for c in g.ifs for x in ast.walk(c)):
+                    continue
+                n_filters += 1
+                if not isinstance(g.target, ast.Name):
+                    continue
+                v = g.target.id
+                if norm(n.elt) != v:
+                    bad.append(f"`{norm(n, 60)}` does not keep the surviving entries unchanged")
+                f_ = formula(ast.BoolOp(op=ast.And(), values=list(g.ifs))) if len(g.ifs) > 1 else formula(g.ifs[0])
+                want = ("lit", f"in({pos_text(v)},{r_items})", False)
+                if f_ != want:
+                    bad.append(f"`{norm(n, 70)}` filters on `{' and '.join(norm(c) for c in g.ifs)}`, expected "
+                               f"`{pos_text(v)} not in {r_items}` (keep exactly the entries whose storage position was not removed)")
+        # (b) statement-form filters (parallel arrays): appends under a membership test on r_items
+        for lp in [x for x in walk_local(h.node) if isinstance(x, ast.For)]:
+            apps = [c for c in walk_local(lp) if isinstance(c, ast.Call) and call_name(c) == "append" and c.args
+                    and isinstance(c.func, ast.Attribute) and isinstance(c.func.value, ast.Name)]
+            mem = [c for c in walk_local(lp) if isinstance(c, ast.Compare) and isinstance(c.ops[0], (ast.In, ast.NotIn))
+                   and norm(c.comparators[0]) == r_items and not any(isinstance(a_, (ast.ListComp, ast.SetComp, ast.GeneratorExp))
+                                                                    for a_ in ancestors(c) if in_subtree(a_, lp))]
+            if not apps or not mem:
+                continue
+            n_filters += 1
+            tested = {norm(c.left) for c in mem}
+            for a in apps:
+                cl = guard_clauses(guards(a, stop=lp))
+                oks = [t for t in tested if any(len(c) == 1 and next(iter(c)) == (f"in({t},{r_items})", False) for c in cl)]
+                if not oks:
+                    bad.append(f"`{norm(a, 50)}` is not under `<position> not in {r_items}`")
+        # (c) every non-empty filtered list is stored back; no early exit from the pruning loops
+        for lp in [x for x in walk_local(h.node) if isinstance(x, ast.For)]:
+            for x in walk_local(lp):
+                if isinstance(x, (ast.Break, ast.Return)):
+                    bad.append(f"`{type(x).__name__.lower()}` at line {x.lineno} leaves the pruning loop early: the keys/values "
+                               f"after it vanish from the index")
+        inner = [lp for lp in walk_local(h.node) if isinstance(lp, ast.For)
+                 and not any(isinstance(y, ast.For) and y is not lp for y in walk_local(lp))]
+        for lp in inner:
+            filt = [s for s in lp.body if isinstance(s, ast.Assign) and len(s.targets) == 1 and isinstance(s.targets[0], ast.Name)
+                    and isinstance(s.value, (ast.ListComp,)) and any(
+                        isinstance(x, ast.Name) and x.id == r_items for x in ast.walk(s.value))]
+            if len(filt) != 1:
+                continue
+            nv = filt[0].targets[0].id
+            stores = [s for s in walk_local(lp) if isinstance(s, ast.Assign) and isinstance(s.targets[0], ast.Subscript)
+                      and any(isinstance(x, ast.Name) and x.id == nv for x in ast.walk(s.value))]
+            if not stores:
+                bad.append(f"the filtered list `{nv}` is never stored back")
+                continue
+            cls = [guard_clauses(guards(s, stop=lp)) for s in stores]
+            atoms = sorted({a for cl in cls for c in cl for a, _ in c} | {f"truthy({nv})"})
+            if len(atoms) > 6:
+                continue
+            import itertools
+            for bits in itertools.product([True, False], repeat=len(atoms)):
+                facts = list(zip(atoms, bits))
+                if not dict(facts)[f"truthy({nv})"]:
+                    continue
+                if not any(consistent_with(cl, facts) for cl in cls):
+                    cond = ", ".join(f"{a}={b}" for a, b in facts if a != f"truthy({nv})")
+                    bad.append(f"a non-empty `{nv}` is not stored back when {cond or 'it is non-empty'}: surviving positions "
+                               f"vanish from the index")
+                    break
+        if n_filters == 0:
+            raise AnalysisError("C06.R13", f"{h.qual}: no filter on `{r_items}` recognised")
+        yield Ob("C06.R13", ["C06", "C02", "C01", "C07", "C10"], f"{h.qual} | keeps exactly the surviving positions", not bad,
+                 "; ".join(bad[:3]) if bad else f"{n_filters} filter(s): position component `not in {r_items}`, entries unchanged, "
+                 f"non-empty lists stored back", h.loc())
+
+
+@rule("C06.R14", ["C06", "C07", "C10", "C01"], min_instances=2, design="3.6")
+def tuple_entries_tested_by_position(ctx):
+    """Entries of a tuple-valued inverted map (position, value) are membership-tested through their position component only (a value is never a storage position)."""
+    fl = fields_of(ctx)
+    comp_of = _tuple_position_component(ctx, fl)
+    if not comp_of:
+        raise AnalysisError("C06.R14", "no tuple-valued inverted map recognised in Index")
+    n_sites = 0
+    for m in ctx.prog.methods_of("Index"):
+        # names bound to a position list of a tuple map
+        lists: Dict[str, str] = {}
+        for n in walk_local(m.node):
+            if isinstance(n, (ast.For, ast.comprehension)) and isinstance(n.iter, ast.Call) and call_name(n.iter) in ("items", "values") \
+                    and isinstance(n.iter.func, ast.Attribute) and is_self_attr(n.iter.func.value) \
+                    and n.iter.func.value.attr in comp_of:
+                t_ = n.target
+                if call_name(n.iter) == "items" and isinstance(t_, ast.Tuple) and len(t_.elts) == 2 and isinstance(t_.elts[1], ast.Name):
+                    lists[t_.elts[1].id] = n.iter.func.value.attr
+                elif call_name(n.iter) == "values" and isinstance(t_, ast.Name):
+                    lists[t_.id] = n.iter.func.value.attr
+        elems: Dict[str, str] = {}
+        for n in walk_local(m.node):
+            if isinstance(n, (ast.For, ast.comprehension)) and isinstance(n.target, ast.Name):
+                it = n.iter
+                attr = None
+                if isinstance(it, ast.Name) and it.id in lists:
+                    attr = lists[it.id]
+                elif isinstance(it, ast.Subscript) and is_self_attr(it.value) and it.value.attr in comp_of:
+                    attr = it.value.attr
+                if attr is not None:
+                    elems[n.target.id] = attr
+        for n in walk_local(m.node):
+            if isinstance(n, ast.Compare) and len(n.ops) == 1 and isinstance(n.ops[0], (ast.In, ast.NotIn)) \
+                    and isinstance(n.left, ast.Subscript) and isinstance(n.left.value, ast.Name) and n.left.value.id in elems \
+                    and isinstance(n.left.slice, ast.Constant) and type(n.left.slice.value) is int:
+                n_sites += 1
+                want = comp_of[elems[n.left.value.id]]
+                ok = n.left.slice.value == want
+                yield Ob("C06.R14", ["C06", "C07", "C10", "C01"], f"{m.qual} | membership test on an entry of self.{elems[n.left.value.id]} | "
+                         f"{norm(n, 60)}{occ(m, n)}", ok,
+                         f"tests the position component [{want}]" if ok else
+                         f"`{norm(n)}` tests component [{n.left.slice.value}] (the stored value) against a set of storage positions; "
+                         f"the position is component [{want}]", ctx.prog.loc(n))
+    if n_sites < 2:
+        raise AnalysisError("C06.R14", f"expected >=2 membership tests on tuple entries in Index, found {n_sites}")
